@@ -397,6 +397,12 @@ func (e *Env) evalSelector(n *ast.SelectorExpr) Val {
 				if e.fr != nil {
 					_, known = e.fr.lookupLocal(e.st, id.Name)
 				}
+				if !known && id.Name == e.pkg.Name() {
+					// an extern spec naming an object of the callee's own package (e.g. base64.StdEncoding)
+					if v, ok := e.lookupPkgObj(e.pkg, n.Sel.Name); ok {
+						return v
+					}
+				}
 				if !known {
 					for _, imp := range e.x.prog.importsOf(e.pkg) {
 						if imp.Name() == id.Name {
